@@ -333,6 +333,11 @@ pub fn ops_len() -> usize {
 	n
 }
 
+/// Copy of the operations recorded so far (recording must be paused by the caller).
+pub fn stop_peek() -> Vec<Op> {
+	OPS.lock().unwrap().clone()
+}
+
 pub fn stop() -> Vec<Op> {
 	REC.store(false, SeqCst);
 	parity_db::verif::set_store_cb(None);
